@@ -116,6 +116,48 @@ fn run(case: &Val) -> Val {
         let direct = dur(humantime::parse_duration(&text_of(&c[2])).ok());
         return Val::L(vec![got, direct]);
     }
+    // Every other size / interval case takes the route of a component DECLARED in a configuration document: the
+    // literal sits in the generic value tree that `Deserializers::deserialize("size" | "time", tree)` hands to the
+    // trigger's deserializer.  Same literal, same meaning (nothing else in that route may touch it).
+    static TURN: std::sync::atomic::AtomicUsize = std::sync::atomic::AtomicUsize::new(0);
+    let declared = TURN.fetch_add(1, std::sync::atomic::Ordering::SeqCst) % 2 == 1;
+    if declared && (kind == 0 || kind == 1) {
+        use log4rs::append::rolling_file::policy::compound::trigger::Trigger;
+        let name = if kind == 0 { "size" } else { "time" };
+        let d2 = doc.clone();
+        let built = std::panic::catch_unwind(move || {
+            let tree = if fmt == 0 { serde_yaml::from_str(&d2).map_err(|e| e.to_string()) } else { serde_json::from_str(&d2).map_err(|e| e.to_string()) };
+            match tree {
+                Ok(t) => log4rs::config::Deserializers::default()
+                    .deserialize::<dyn Trigger>(name, t)
+                    .map(|t| format!("{:?}", t))
+                    .map_err(|e| e.to_string()),
+                Err(e) => Err(e),
+            }
+        });
+        match built {
+            Ok(Err(_)) => return Val::L(vec![Val::N(0)]),
+            Ok(Ok(dbg)) if kind == 0 => {
+                let digits: String =
+                    dbg.split("limit:").nth(1).expect("limit in Debug").chars().take_while(|ch| *ch != '}' && *ch != ',').filter(|ch| ch.is_ascii_digit()).collect();
+                return Val::L(vec![Val::N(1), Val::N(digits.parse::<u128>().expect("limit digits"))]);
+            }
+            Ok(Ok(dbg)) => {
+                // "... interval: Hour(3), ..."
+                if let Some(rest) = dbg.split("interval:").nth(1) {
+                    let rest = rest.trim_start();
+                    let unit = ["Second", "Minute", "Hour", "Day", "Week", "Month", "Year"].iter().position(|u| rest.starts_with(u));
+                    let num: String = rest.chars().skip_while(|ch| *ch != '(').skip(1).take_while(|ch| *ch != ')').collect();
+                    if let (Some(u), Ok(n)) = (unit, num.parse::<i128>()) {
+                        let nv = if n < 0 { Val::z(n) } else { Val::N(n as u128) };
+                        return Val::L(vec![Val::N(1), Val::N(u as u128), nv]);
+                    }
+                }
+                // Debug shape not understood: fall through to the direct route
+            }
+            Err(_) => {} // TimeTrigger::new panics on degenerate intervals (C16's findings): direct route
+        }
+    }
     if kind == 0 {
         let r: Result<SizeTriggerConfig, String> = if fmt == 0 {
             serde_yaml::from_str(&doc).map_err(|e| e.to_string())
